@@ -229,6 +229,15 @@ def prove_equal_cas(lhs, rhs, box, hyp=None, positive=None, seed=0, npoints=12, 
         evaluated += 1
         scale = max(abs(a), abs(b), mpmath.mpf(1) / 10**20)
         if abs(a - b) > tol * scale:
+            # cancellation noise or a genuine difference?  Re-evaluate with twice the digits: noise shrinks with the
+            # precision, a genuine difference does not.
+            try:
+                a2, b2 = mp_eval(lhs, pt, funcs, dps=110), mp_eval(rhs, pt, funcs, dps=110)
+            except tm.EvalError:
+                a2, b2 = a, b
+            mpmath.mp.dps = 50
+            if abs(a2 - b2) <= mpmath.mpf(10) ** (-70) * max(abs(a2), abs(b2), mpmath.mpf(1) / 10**20) or abs(a2 - b2) < abs(a - b) * mpmath.mpf(10) ** (-20):
+                continue
             return Verdict(
                 REFUTED, "CAS", witness=pt,
                 detail=f"sides differ at the witness: lhs={mpmath.nstr(a, 17)} rhs={mpmath.nstr(b, 17)}",
